@@ -207,14 +207,29 @@ Definition fb_get (fb : fbuf) (x y : Z) : option Z :=
   | Some row => nth_error row (Z.to_nat x)
   end.
 
-(* rows written top to bottom starting at (x, y) *)
-Fixpoint fb_write_rows (fb : fbuf) (x y : Z) (rows : list (list Z)) : option fbuf :=
+(* rows written top to bottom starting at (x, y): one pass over the framebuffer (k = rows still to skip);
+   fails as soon as a row does not exist or a span leaves its row *)
+Fixpoint write_rows_from (fb : fbuf) (x : Z) (k : nat) (rows : list (list Z)) : option fbuf :=
   match rows with
   | [] => Some fb
-  | r :: rs => match fb_write fb x y r with
-               | None => None
-               | Some fb' => fb_write_rows fb' x (y + 1) rs
-               end
+  | r :: rs =>
+      match fb with
+      | [] => None
+      | row :: fb' =>
+          match k with
+          | S k' => match write_rows_from fb' x k' rows with Some t => Some (row :: t) | None => None end
+          | O => match row_write row x r with
+                 | None => None
+                 | Some row' => match write_rows_from fb' x O rs with Some t => Some (row' :: t) | None => None end
+                 end
+          end
+      end
+  end.
+
+Definition fb_write_rows (fb : fbuf) (x y : Z) (rows : list (list Z)) : option fbuf :=
+  match rows with
+  | [] => Some fb
+  | _ => if y <? 0 then None else write_rows_from fb x (Z.to_nat y) rows
   end.
 
 Definition new_fb (w h : Z) : fbuf := repeat (repeat 0 (Z.to_nat w)) (Z.to_nat h).
